@@ -44,7 +44,7 @@ theorem foldl_steps_ptr_mono (I : DA) (g : Nat → Bool) (ps : List Nat) (s : St
     · exact step_ptr_mono I s p q
     · exact Nat.le_refl _
 
-theorem round_inv (I : DA) (hwf : WF I) (np : Nat) (st : St) (h : DAInv I st) : DAInv I (round I np st) :=
+theorem round_inv (I : DA) (hwf : WF I) (np : Nat) (st : St) (h : DAInv I st) : DAInv I (gsRound I np st) :=
   foldl_steps_inv I hwf (active I st) (List.range np) st h
 
 /-- when the loop stops, the state is final for all proposers below `np` -/
